@@ -1,10 +1,10 @@
 #!/bin/sh
 # run every accepted check at the given tier (default quick); prints one line per check
 T="${1:-quick}"
-cd /verif
+cd "$(dirname "$0")/.."
 for p in $(grep -v '^#' tools/accepted.txt); do
   s=$(date +%s)
-  ./check $p --tier $T > /tmp/runall_$p.log 2>&1; c=$?
+  ./check $p --tier $T > /tmp/runall_${VERIF_SEED:-0}_$p.log 2>&1; c=$?
   e=$(date +%s)
-  echo "$p exit=$c wall=$((e-s))s $(grep -v condarc /tmp/runall_$p.log | grep 'runs=' | sed 's/.*\(runs=[0-9]* ok=[0-9]*\).*/\1/') $(grep -c '^VIOLATION' /tmp/runall_$p.log) viol $(grep -c '^KNOWN' /tmp/runall_$p.log) known"
+  echo "$p exit=$c wall=$((e-s))s $(grep -v condarc /tmp/runall_${VERIF_SEED:-0}_$p.log | grep 'runs=' | sed 's/.*\(runs=[0-9]* ok=[0-9]*\).*/\1/') $(grep -c '^VIOLATION' /tmp/runall_${VERIF_SEED:-0}_$p.log) viol $(grep -c '^KNOWN' /tmp/runall_${VERIF_SEED:-0}_$p.log) known"
 done
